@@ -366,6 +366,7 @@ class Report:
 
 	def case(self, stream, case, nontrivial=True, sample_every=None):
 		self.evaluations += 1
+		self.last_case = (stream, case)
 		self.streams[stream] = self.streams.get(stream, 0) + 1
 		if nontrivial:
 			h = hashlib.sha1(json.dumps([stream, case], sort_keys=True, default=str).encode()).hexdigest()
